@@ -1146,16 +1146,77 @@ class DataV:
         return Custom(SubFrame("data", None, i, p))
 
     def attr(self, eng, p, name):
+        if name == "loc":
+            return Custom(LocV(self))
         raise Unsupported("data." + name)
 
 
 class GroupByV:
     tracked = False
 
+    def attr(self, eng, p, name):
+        if name == "groups":
+            return Custom(GroupLabelsDict())      # ASSUMED pandas: gb.groups == {key: INDEX LABELS of the rows of that group}
+        raise Unsupported("groupby." + name)
+
+
+class GroupLabelsDict:
+    tracked = False
+
+    def call_method(self, eng, p, name, args, kw, node):
+        if name == "items" and not args:
+            return [(p, Custom(GroupLabelsItems()))]
+        raise Unsupported("gb.groups." + name)
+
+
+class GroupLabelsItems:
+    tracked = False
+
+
+class LabelsV:
+    """gb.groups[key]: the index labels of the rows of group g (NOT the rows: several rows may carry the same label)"""
+    tracked = False
+
+    def __init__(self, g):
+        self.g = g
+
+
+class LocV:
+    tracked = False
+
+    def __init__(self, frame):
+        self.frame = frame
+
+    def getitem(self, eng, p, i, node):
+        if isinstance(i, Custom) and isinstance(i.h, LabelsV):
+            return Custom(LabelFrame(i.h.g))
+        raise Unsupported("data.loc[...] with another selector")
+
+
+class LabelFrame:
+    """data.loc[<index labels of group g>]: EVERY row of the frame whose index label is one of those labels (ASSUMED pandas .loc with a
+    list of labels; a row is returned once per occurrence of its label in the list) - the rows of group g only when labels are unique"""
+    tracked = False
+
+    def __init__(self, g):
+        self.g = g
+
+    def attr(self, eng, p, name):
+        if name == "empty":
+            return PyB(W.EMPTY(self.g))          # no labels <=> no rows in the group
+        raise Unsupported("frame." + name)
+
+    def getitem(self, eng, p, i, node):
+        return Custom(SubFrame("rows selected by the group's index labels", self.g, i, p))
+
 
 class GroupsV:
-    """sorted(gb): every (key, group) pair exactly once (ASSUMED pandas groupby, see ASSUMED)"""
+    """sorted(gb): every (key, group) pair exactly once (ASSUMED pandas groupby, see ASSUMED); by_labels: sorted(gb.groups.items()):
+    every (key, index labels of the group) pair once"""
     tracked = False
+
+    def __init__(self, by_labels=False):
+        self.by_labels = by_labels
 
     def for_loop(self, eng, p, st):
         n0 = len(effects(p))
@@ -1166,7 +1227,7 @@ class GroupsV:
         body.ghost["in_group_loop"] = n0
         outs = []
         key = Custom(KeyV(W.g)) if p.ghost["groupby_list"] else KeyV(W.g).scalar()
-        for q in eng.assign(st.target, Tup([key, Custom(GroupFrame(W.g))]), body):
+        for q in eng.assign(st.target, Tup([key, Custom(LabelsV(W.g) if self.by_labels else GroupFrame(W.g))]), body):
             for r in eng.block(st.body, [q]):
                 r.ghost["iteration"] = (n0, r.ctl)
                 if r.ctl in (None, "continue"):
@@ -1383,6 +1444,8 @@ def run_partition_on_columns(ctx, funcs, timeout, hive):
     def h_sorted(eng, p, args, kw, node):
         if len(args) == 1 and not kw and isinstance(args[0], Custom) and isinstance(args[0].h, GroupByV):
             return [(p, Custom(GroupsV()))]
+        if len(args) == 1 and not kw and isinstance(args[0], Custom) and isinstance(args[0].h, GroupLabelsItems):
+            return [(p, Custom(GroupsV(by_labels=True)))]
         raise Unsupported("sorted")
 
     def h_reversed(eng, p, args, kw, node):
@@ -1618,10 +1681,35 @@ def run_partition_on_columns(ctx, funcs, timeout, hive):
         f_ok = isinstance(mp[1], Custom) and mp[1].h is op
         trace(res, P + "part_written_into_the_opened_file", f_ok, "make_part_file writes into the file object just opened for this group")
         fr = mp[2].h if isinstance(mp[2], Custom) and isinstance(mp[2].h, SubFrame) else None
-        rows_ok = fr is not None and fr.origin == "group" and fr.g is not None and z3.simplify(fr.g).eq(W.g)
-        trace(res, P + "file_holds_exactly_the_rows_of_this_group", rows_ok,
-              "the frame written is group[...]: the rows of THIS group (all of them, nothing of another group or of the whole row group)",
-              {"frame": (fr.origin if fr else type(getattr(mp[2], 'h', mp[2])).__name__)})
+        rows_detail = "the frame written holds the rows of THIS group: all of them, each once, nothing of another group or of the whole row group"
+        if fr is not None and fr.origin == "rows selected by the group's index labels" and fr.g is not None:
+            # a frame selected BY INDEX LABEL: row r is in it iff some row of the group carries r's label (ASSUMED .loc); nothing says the
+            # labels of the frame handed to partition_on_columns are unique
+            RW = z3.DeclareSort("Row")
+            r, rw = z3.Const("row_skolem", RW), z3.Const("row_with_the_same_label", RW)
+            INGROUP = z3.Function("RowIsInGroup", RW, I, B)
+            LABEL = z3.Function("IndexLabelOfRow", RW, I)
+            SELECTED = z3.Function("RowIsSelectedByTheLabelsOfGroup", RW, I, B)
+            sk = z3.Function("SomeRowOfGroupWithThatLabel", RW, I, RW)
+            g_ = fr.g
+            loc_facts = [z3.Implies(z3.And(INGROUP(x, g_), LABEL(x) == LABEL(r)), SELECTED(r, g_)) for x in (r, rw)]
+            loc_facts += [z3.Implies(SELECTED(r, g_), z3.And(INGROUP(sk(r, g_), g_), LABEL(sk(r, g_)) == LABEL(r)))]
+            goal = SELECTED(r, g_) == INGROUP(r, W.g)
+            st_, m_, secs_ = solve(list(q.pc) + loc_facts + [z3.Not(goal)], timeout)
+            res.add(P + "file_holds_exactly_the_rows_of_this_group", st_,
+                    {"frame": "data.loc[<index labels of the group>]", "a row NOT in the group is selected": mval(m_, z3.And(SELECTED(r, g_), z3.Not(INGROUP(r, W.g)))),
+                     "because ANOTHER row, which is in the group, has the same index label": mval(m_, z3.And(INGROUP(sk(r, g_), g_), LABEL(sk(r, g_)) == LABEL(r),
+                                                                                                           sk(r, g_) != r))} if m_ is not None else None,
+                    secs_, "z3", rows_detail + " - posed at a Skolem row; for a label-selected frame this needs unique index labels, which no "
+                    "precondition of partition_on_columns provides")
+            uniq = [z3.Implies(LABEL(x) == LABEL(y), x == y) for x in (r, rw, sk(r, g_)) for y in (r, rw, sk(r, g_))]
+            st_, m_, secs_ = solve(list(q.pc) + loc_facts + uniq + [g_ == W.g, z3.Not(goal)], timeout)
+            res.add(P + "file_holds_exactly_the_rows_of_this_group[unique index labels]", st_, None, secs_, "z3", rows_detail + " (sibling: with unique labels)")
+            rows_ok = True
+        else:
+            rows_ok = fr is not None and fr.origin == "group" and fr.g is not None and z3.simplify(fr.g).eq(W.g)
+            trace(res, P + "file_holds_exactly_the_rows_of_this_group", rows_ok, rows_detail + " (the sub-frame pandas' groupby yields for this key)",
+                  {"frame": (fr.origin if fr else type(getattr(mp[2], 'h', mp[2])).__name__)})
         if fr is not None and fr.rem is not None:
             pose(res, timeout, P + "file_columns_are_the_non_partition_columns", q, [], z3.Select(fr.rem, W.xS) == (W.IDX(W.xS) >= 0),
                  "the columns written are the frame's columns minus exactly the partition columns (whole list: posed at a Skolem column)", (W.xS, W.IDX(W.xS)))
@@ -3400,7 +3488,9 @@ ASSUMED = [
     "partition the remaining rows; each group's frame has the rows of the frame with exactly that key combination (all columns); the key is a "
     "scalar for a single label and a tuple with one element per label, in label order, for a list of labels; sorted(gb) yields each "
     "(key, group) once; unobserved category combinations give EMPTY groups; frame[list of labels] keeps all rows and exactly those columns; "
-    "list(frame) is the list of its (distinct) column labels; list.remove(x) removes the first element equal to x (ValueError if absent)",
+    "list(frame) is the list of its (distinct) column labels; list.remove(x) removes the first element equal to x (ValueError if absent); "
+    "gb.groups maps each key to the INDEX LABELS of the group's rows and frame.loc[labels] returns every row whose index label is among them "
+    "(once per occurrence) - the group's rows only if index labels are unique, which NO precondition of partition_on_columns states",
     "writer.make_part_file(f, df, ...) writes only to f, returns None iff df has no rows, else ONE row group describing exactly df's rows "
     "(covered by C02/C01); open_with / mkdirs are the only other I/O of partition_on_columns; write_multi passes partname = 'part.%i.parquet' "
     "(non-empty, no separator) - contracts/c07_parts.py",
